@@ -46,10 +46,15 @@ package engine
 
 // The one caller of writeCompoundNumberVars: only the precondition of that call is an obligation here.
 //@ func WriteCompound
-//@   property C05
-//@   checks only pre@call
+//@   property C05 C18
+//@   checks only pre@call at-call at-call-missing inv-entry inv-keep
 //@   trusted-frame
-//@   loop 1 invariant true
+//@   loop 1 invariant[index-range] -1 <= $i && $i < 3
+//@   bind vo = WriteOptions.withVisited#1
+//@   at-call writeCompoundOp requires[the-compound-its-writer-and-environment-are-handed-on-with-the-copy-of-the-options-given] a0 == w && a1 == c && a3 == env && called(vo) && a2 == vo
+//@   at-call writeCompoundOp requires[operator-notation-is-chosen-from-the-operator-table-of-the-options-given-an-entry-for-the-compound-s-functor]
+//@       exists k operatorClass :: *a4 == opts.ops[Compound.Functor(c)][k]
+//@   at-call writeCompoundOp requires[the-entry-chosen-takes-as-many-operands-as-the-compound-has-arguments] ite(cls((*a4).specifier) == 2, 2, 1) == Compound.Arity(c)
 
 // eval's deferred conversion: an exceptional value (overflow, zero divisor, ...) raised by an arithmetic kernel never
 // leaves eval as the raw Go value; it leaves as the evaluation_error term built for it in the caller's environment.
